@@ -54,6 +54,9 @@ DECKS = [
     ('hexb', 'hex deck b\n1 0 -1 fill=1 imp:n=1\n2 0 1 imp:n=0\n10 0 -11 -12 -13 -14 -15 -16 lat=2 u=1 fill=-1:1 -1:1 0:0 7 8 7 8 7 8 7 8 7 imp:n=1\n'
              '21 1 -2.7 -21 u=7 imp:n=1\n22 0 21 u=7 imp:n=1\n31 0 -21 u=8 imp:n=1\n32 1 -2.7 21 u=8 imp:n=1\n\n1 so 9\n'
              '11 p 0 2 0 2\n12 p 0 -2 0 2\n13 p 2 2 0 4\n14 p -2 -2 0 0\n15 p -2 0 0 0\n16 p 2 0 0 4\n21 pz 0\n\nm1 13027 1\n', []),
+    # a one-sheet cone (cone + auxiliary plane) in a cell with TRCL and in a filled universe: labels of generated surfaces
+    ('cone', 'cone deck\n1 1 -2.7 -1 -2 trcl=(0 0 5) imp:n=1\n2 0 -3 fill=1 (0 0 -4) imp:n=1\n3 0 #1 #2 -4 imp:n=1\n4 0 4 imp:n=0\n'
+             '11 2 -1.0 -1 u=1 imp:n=1\n12 0 1 u=1 imp:n=1\n\n1 kz 0 1 1\n2 pz 3\n3 s 0 0 -6 2\n4 so 20\n\nm1 13027 1\nm2 8016 1\n', []),
     # 6 a deck that raises (unknown surface type)
     ('raises', 'bad deck\n1 0 -1 imp:n=1\n2 0 1 imp:n=0\n\n1 qq 5\n\n', []),
 ]
